@@ -374,13 +374,6 @@ pub fn extra_universe() -> Universe {
     // a zero-copy structure with a field at an offset beyond 2^16
     let far_z = add(def("FarZ", Zero, &["C"], vec![], Body::Struct(named(&[("head", p(U8)), ("bulk", Ty::arr(p(U8), 66_000)), ("tail", p(U32)), ("end", p(U16))]))));
 
-    // type names of several kilobytes made of multi-byte characters: any byte offset at which somebody cuts such a
-    // name (64, 1024, 4096, ...) falls inside a character for most of the four variants (shifted by 0..3 bytes)
-    let cjk: String = "統一資料構造体型名識別子試験用定義記号列長文字種類別".chars().cycle().take(60).collect();
-    let cjk_defs: Vec<usize> = ["", "A", "AB", "ABC"]
-        .iter()
-        .map(|pre| add(def(&format!("{}{}", pre, cjk), DeepPlain, &[], vec![tparam("T", &[])], Body::Struct(named(&[("値", Ty::Param(0))])))))
-        .collect();
     // explicit discriminants (the format's tag stays the position of the variant)
     let disc = add(def("Disc", DeepPlain, &[], vec![], Body::Enum(vec![("Low = 1".into(), Fields::Unit), ("Mid".into(), Fields::Unit), ("High = 7".into(), Fields::Unit), ("Top".into(), Fields::Unit)])));
     let disc_r = add(def("DiscR", DeepAttr, &["u8"], vec![tparam("A", &[])], Body::Enum(vec![("Ping = 2".into(), Fields::Unit), ("Data".into(), Fields::Tuple(vec![Ty::Param(0), p(U32)])), ("Text".into(), named(&[("s", Ty::String)])), ("Pong = 9".into(), Fields::Unit)])));
@@ -388,25 +381,10 @@ pub fn extra_universe() -> Universe {
     let hyg = add(def("Hyg", DeepPlain, &[], vec![tparam("A", &[])], Body::Enum(vec![("S".into(), named(&[("tag", p(U8)), ("payload", p(U32)), ("res", Ty::Param(0)), ("hasher", p(U16))])), ("T".into(), named(&[("offset_of", Ty::String), ("len", p(U8)), ("data", Ty::vec(p(U8)))])), ("U".into(), Fields::Named(vec![]))])));
 
     let mut s: Vec<Ty> = vec![];
-    for d0 in &cjk_defs {
-        let mut t = Ty::vec(p(U8));
-        for _ in 0..24 {
-            t = Ty::adt(cjk_defs[0], vec![a(t)]);
-        }
-        s.push(Ty::adt(*d0, vec![a(t)]));
-    }
     s.extend([Ty::adt(disc, vec![]), Ty::vec(Ty::adt(disc, vec![])), Ty::adt(disc_r, vec![a(Ty::vec(p(U64)))]), Ty::vec(Ty::adt(disc_r, vec![a(p(U8))]))]);
     s.extend([Ty::adt(hyg, vec![a(Ty::vec(p(U32)))]), Ty::vec(Ty::adt(hyg, vec![a(p(U8))]))]);
     s.extend([Ty::adt(uni_s, vec![a(Ty::vec(p(U64)))]), Ty::vec(Ty::adt(uni_s, vec![a(Ty::adt(uni_z, vec![]))])), Ty::adt(uni_e, vec![]), Ty::vec(Ty::adt(uni_e, vec![])), Ty::vec(Ty::adt(uni_z, vec![])), Ty::adt(uni_z, vec![])]);
     s.extend([Ty::adt(many_d, vec![]), Ty::adt(many_z, vec![]), Ty::vec(Ty::adt(many_z, vec![])), Ty::adt(far_z, vec![]), Ty::adt(g1, vec![a(Ty::vec(Ty::adt(far_z, vec![])))])]);
-    // nesting deeper than 32 levels
-    {
-        let mut t = p(U8);
-        for k in 0..36 {
-            t = if k % 3 == 2 { Ty::vec(t) } else { Ty::opt(t) };
-        }
-        s.push(t);
-    }
     s.extend([Ty::adt(wide_e, vec![]), Ty::vec(Ty::adt(wide_e, vec![])), Ty::opt(Ty::adt(wide_e, vec![]))]);
     s.extend([Ty::adt(rep8, vec![a(Ty::vec(p(U64)))]), Ty::adt(rep8, vec![a(p(U8))]), Ty::vec(Ty::adt(rep8, vec![a(Ty::String)])), Ty::adt(rep16, vec![]), Ty::vec(Ty::adt(rep16, vec![])), Ty::adt(rep32, vec![]), Ty::adt(g1, vec![a(Ty::adt(rep32, vec![]))])]);
     // packed zero-copy structures: the size is not a multiple of the alignment unit
@@ -416,8 +394,6 @@ pub fn extra_universe() -> Universe {
         let t = Ty::adt(z, vec![]);
         s.extend([t.clone(), Ty::vec(t.clone()), Ty::bslice(t.clone()), Ty::arr(t.clone(), 3), Ty::adt(pre, vec![a(Ty::String), a(Ty::vec(t.clone()))]), Ty::adt(tail, vec![a(Ty::vec(t.clone()))]), Ty::adt(g1, vec![a(t)])]);
     }
-    // array lengths beyond 2^32 (types without values)
-    s.extend([Ty::phantom(Ty::arr(p(U8), (1usize << 32) + 2)), Ty::arr(Ty::arr(p(U16), (1usize << 32) + 1), 0)]);
     // items of more than 4 KiB in sequences
     s.extend([Ty::vec(Ty::arr(p(U64), 513)), Ty::bslice(Ty::arr(p(U8), 4097))]);
     for (x, y) in [(Ty::vec(p(U64)), p(U8)), (Ty::String, p(U32)), (Ty::bslice(Ty::adt(za, vec![])), Ty::adt(za, vec![])), (Ty::vec(Ty::String), Ty::tup(p(U16), 2))] {
@@ -506,6 +482,8 @@ pub fn extra_universe() -> Universe {
     }
     // big payloads (values of more than a mebibyte are added by `sweep_vals` for exactly these subjects)
     s.push(Ty::adt(g1, vec![a(Ty::vec(p(U64)))]));
+    s.push(Ty::adt(g1, vec![a(Ty::vec(Ty::opt(Ty::vec(p(U32)))))]));
+    s.push(Ty::adt(g1, vec![a(Ty::vec(Ty::String))]));
     s.push(Ty::adt(tail, vec![a(Ty::String)]));
     s.push(Ty::adt(tail, vec![a(Ty::bslice(p(U32)))]));
     let mut seen = std::collections::BTreeSet::new();
@@ -515,6 +493,7 @@ pub fn extra_universe() -> Universe {
     // a type instead of its structure (a cache, a registry) confuses them
     let choices: Vec<u32> = (0..400u32).map(|i| i.wrapping_mul(2654435761).rotate_left(7) ^ 0x9e37_79b9).collect();
     crate::mutate::add_twins(&mut u, &mut gen::Src::new(&choices), 4);
+    crate::mutate::add_unit_twins(&mut u);
     u.pairs.clear();
     u
 }
@@ -587,6 +566,63 @@ pub fn wide_universe() -> Universe {
     }
     s.push(Ty::adt(pre, vec![a(Ty::vec(Ty::adt(z128, vec![]))), a(Ty::vec(Ty::adt(z256, vec![])))]));
     u.subjects = s;
+    u
+}
+
+/// Very deep nesting (label "deep"): 36 levels of built-in wrappers, and generic structures with multi-byte names
+/// nested 25 times (type names of several kilobytes). Kept apart from `extra`: with `#[inline(always)]` on the
+/// recursive serialization methods, a change of the library's call graph can make the *compiler* need tens of
+/// gigabytes for such types; that must not take the other shapes down with it.
+pub fn deep_universe() -> Universe {
+    use CopyKind::*;
+    use Prim::*;
+    let mut u = Universe { label: "deep".into(), adts: vec![], subjects: vec![], pairs: vec![] };
+    let mut add = |d: AdtDef| -> usize {
+        u.adts.push(d);
+        u.adts.len() - 1
+    };
+    // type names of several kilobytes made of multi-byte characters: any byte offset at which somebody cuts such a
+    // name (64, 1024, 4096, ...) falls inside a character for most of the four variants (shifted by 0..3 bytes)
+    let cjk: String = "統一資料構造体型名識別子試験用定義記号列長文字種類別".chars().cycle().take(60).collect();
+    let cjk_defs: Vec<usize> = ["", "A", "AB", "ABC"]
+        .iter()
+        .map(|pre| add(def(&format!("{}{}", pre, cjk), DeepPlain, &[], vec![tparam("T", &[])], Body::Struct(named(&[("値", Ty::Param(0))])))))
+        .collect();
+    let mut s: Vec<Ty> = vec![];
+    for d0 in &cjk_defs {
+        let mut t = Ty::vec(p(U8));
+        for _ in 0..24 {
+            t = Ty::adt(cjk_defs[0], vec![a(t)]);
+        }
+        s.push(Ty::adt(*d0, vec![a(t)]));
+    }
+    {
+        let mut t = p(U8);
+        for k in 0..36 {
+            t = if k % 3 == 2 { Ty::vec(t) } else { Ty::opt(t) };
+        }
+        s.push(t);
+    }
+    u.subjects = s;
+    u
+}
+
+/// Types that mention arrays of more than 2^32 items, without ever holding a value of them, next to their small
+/// counterparts (label "huge"; pairs for C04). Kept apart from the other universes: compiling programs that name
+/// such types is the one place where a change in the library can make the *compiler* run out of memory.
+pub fn huge_universe() -> Universe {
+    use Prim::*;
+    let mut u = Universe { label: "huge".into(), adts: vec![], subjects: vec![], pairs: vec![] };
+    let big = (1usize << 32) + 2;
+    u.subjects = vec![
+        Ty::phantom(Ty::arr(p(U8), 2)),
+        Ty::phantom(Ty::arr(p(U8), big)),
+        Ty::arr(Ty::arr(p(U16), 1), 0),
+        Ty::arr(Ty::arr(p(U16), big - 1), 0),
+        Ty::vec(Ty::phantom(Ty::arr(p(U32), 3))),
+        Ty::vec(Ty::phantom(Ty::arr(p(U32), big + 1))),
+    ];
+    u.pairs = vec![(0, 1), (2, 3), (4, 5)];
     u
 }
 
